@@ -57,6 +57,27 @@ var gridRequirements = []struct{ name, json string }{
 	{"all-unused-group", `[{"rule":"all","from":"A"},{"rule":"all","from":"B"},{"rule":"all","from":"C"}]`},
 }
 
+// gridExtremeRequirements: the same shapes with numbers at the edges of what the schema admits ("type":"integer","minimum":0 resp. 1): the remote party that
+// sends a definition chooses them. Only the isolated entry point uses them (a number that becomes an allocation size ends the process, which no recover() sees).
+var gridExtremeRequirements = []struct{ name, json string }{
+	{"pick-min1-max1e18-A", `[{"rule":"pick","min":1,"max":1000000000000000000,"from":"A"}]`},
+	{"pick-max2^32-A+pick-0..maxint-B", `[{"rule":"pick","max":4294967296,"from":"A"},{"rule":"pick","min":0,"max":9223372036854775807,"from":"B"}]`},
+	{"pick-count2^32-A", `[{"rule":"pick","count":4294967296,"from":"A"}]`},
+	{"pick-minmaxint-A", `[{"rule":"pick","min":9223372036854775807,"from":"A"}]`},
+	{"nested-max2^31-all-A+pick-max2^32-B", `[{"rule":"pick","min":1,"max":2147483648,"from_nested":[{"rule":"all","from":"A"},{"rule":"pick","max":4294967295,"from":"B"}]}]`},
+	{"pick-0..0-A", `[{"rule":"pick","min":0,"max":0,"from":"A"}]`},
+	{"pick-min2-max1-A", `[{"rule":"pick","min":2,"max":1,"from":"A"}]`},
+	{"pick-count-min-max-A", `[{"rule":"pick","count":1,"min":4294967296,"max":1000000000000000000,"from":"A"}]`},
+}
+
+func gridRequirement(req int) (name, json string) {
+	if req >= len(gridRequirements) {
+		x := gridExtremeRequirements[req-len(gridRequirements)]
+		return x.name, x.json
+	}
+	return gridRequirements[req].name, gridRequirements[req].json
+}
+
 var gridGroups = []struct{ name, json string }{{"-", ``}, {"A", `["A"]`}, {"B", `["B"]`}, {"AB", `["A","B"]`}}
 
 // gridDefinition builds the JSON of a presentation definition: descriptor i uses template ts[i] and group gs[i].
@@ -80,7 +101,7 @@ func gridDefinition(id string, ts, gs []int, req int, duplicateIDs bool) string 
 		ds = append(ds, d+"}")
 	}
 	out := fmt.Sprintf(`{"id":%q`, id)
-	if r := gridRequirements[req].json; r != "" {
+	if _, r := gridRequirement(req); r != "" {
 		out += `,"submission_requirements":` + r
 	}
 	return out + `,"input_descriptors":[` + strings.Join(ds, ",") + `]}`
@@ -145,7 +166,7 @@ func (g *peGrid) envelopes(w []int) map[string]string {
 		}
 		return `{"@context":["https://www.w3.org/2018/credentials/v1"],"type":"VerifiablePresentation","holder":"did:web:holder.example","verifiableCredential":` + vcs + `,` + gridLDProof + `}`
 	}
-	out := map[string]string{"ldp_vp": ld(raws), "ldp_vp-array-of-one": `[` + ld(raws) + `]`}
+	out := map[string]string{"ldp_vp": ld(raws), "ldp_vp-array-of-one": `[` + ld(raws) + `]`, "no-presentations": `[]`}
 	jwtVP, _ := atk.jwsFromTree(jmut.MustParse(`{"h":{"alg":"ES256","typ":"JWT","kid":"did:web:holder.example#key-1"},"p":{"iss":"did:web:holder.example","sub":"did:web:holder.example","jti":"did:web:holder.example#vp","nbf":1704067200,"exp":2019686400,"nonce":"n","aud":"did:web:verifier.example",
 "vp":{"@context":["https://www.w3.org/2018/credentials/v1"],"type":"VerifiablePresentation","verifiableCredential":[` + strings.Join(raws, ",") + `]}}}`))
 	out["jwt_vp"] = mustJSON(string(jwtVP))
@@ -272,7 +293,8 @@ func (g *peGrid) run(c gridCase) error {
 	if _, ok := envs[second]; !ok {
 		second = otherKinds[(c.k+1)%2]
 	}
-	for _, kind := range []string{"ldp_vp", second} {
+	// besides: an envelope without any presentation (the remote party can send it whatever the definition asks for)
+	for _, kind := range []string{"ldp_vp", second, "no-presentations"} {
 		raw := envs[kind]
 		env, err := pe.ParseEnvelope([]byte(raw))
 		if err != nil {
@@ -281,7 +303,10 @@ func (g *peGrid) run(c gridCase) error {
 		}
 		subs := gridSubmissions(pd.Id, kind, c.wallet, len(pd.InputDescriptors))
 		for name, sj := range subs {
-			if kind != "ldp_vp" && name != "descriptor-i-credential-i" && name != "first-descriptor-only" {
+			if kind == "no-presentations" && name != "empty-map" && name != "first-descriptor-only" {
+				continue
+			}
+			if kind != "ldp_vp" && kind != "no-presentations" && name != "descriptor-i-credential-i" && name != "first-descriptor-only" {
 				continue // every submission shape with the plain presentation, two of them with the other envelope shape
 			}
 			s, err := pe.ParsePresentationSubmission([]byte(sj))
@@ -309,7 +334,7 @@ var newPEFixtureHolder = newPEFixture().holder
 
 func peGridEntry(h *harness) *entry {
 	g := newPEGrid()
-	return &entry{name: "pe.Grid.Match-Build-Validate",
+	return &entry{name: "pe.Grid.Match-Build-Validate", isolate: true,
 		gen: func(h *harness, e *entry, emit func(input)) {
 			rnd := h.r.Rand("gen/" + e.name)
 			n := 0
@@ -325,7 +350,8 @@ func peGridEntry(h *harness) *entry {
 				if valid {
 					in.valid = true
 				} else {
-					in.ops = []string{"pegrid:requirements=" + gridRequirements[req].name + "@/submission_requirements", "pegrid:descriptors=" + strings.Join(tn, "+") + "@/input_descriptors",
+					reqName, _ := gridRequirement(req)
+					in.ops = []string{"pegrid:requirements=" + reqName + "@/submission_requirements", "pegrid:descriptors=" + strings.Join(tn, "+") + "@/input_descriptors",
 						"pegrid:groups=" + strings.Join(gn, "+") + "@/input_descriptors/group", "pegrid:credentials=" + walletName(w) + "@/verifiableCredential"}
 					if dup {
 						in.ops = append(in.ops, "pegrid:duplicate-descriptor-ids@/input_descriptors/id")
@@ -370,6 +396,27 @@ func peGridEntry(h *harness) *entry {
 					out([]int{0, 1, 4}, gs, req, false, gridWallets[wi], false)
 				}
 			}
+			// extreme numbers in the requirements x presentations that do / do not fulfil them (two descriptors of A one credential fulfils, one of B)
+			for x := range gridExtremeRequirements {
+				for wi := range gridWallets {
+					if !h.r.Thorough() && wi%3 != (x+int(h.r.Seed()))%3 && wi != 1 {
+						continue
+					}
+					out([]int{0, 5, 4}, []int{1, 1, 2}, len(gridRequirements)+x, false, gridWallets[wi], false)
+				}
+			}
+			// definitions that ask for nothing: no descriptors at all x (no requirements, only optional requirements, requirements naming groups without members) x presentations
+			for _, req := range []int{0, 10, 4, 1, 2, len(gridRequirements) + 5, len(gridRequirements) + 1} {
+				for _, wi := range []int{10, 0, 1} {
+					out([]int{}, []int{}, req, false, gridWallets[wi], false)
+				}
+			}
+			// one descriptor nobody has to fulfil
+			for _, t := range []int{0, 6, 7, 8} {
+				for _, wi := range []int{10, 0, 9} {
+					out([]int{t}, []int{1}, 10, false, gridWallets[wi], false)
+				}
+			}
 			// seeded random: 1-4 descriptors, any template/group/requirement/presentation
 			_, nRandom := h.budgetFor(e.name, false)
 			nRandom = nRandom / 2
@@ -377,6 +424,12 @@ func peGridEntry(h *harness) *entry {
 				nd := 1 + rnd.Intn(4)
 				ts, gs := make([]int, nd), make([]int, nd)
 				req := rnd.Intn(len(gridRequirements))
+				if rnd.Intn(6) == 0 {
+					req = len(gridRequirements) + rnd.Intn(len(gridExtremeRequirements))
+				}
+				if rnd.Intn(12) == 0 {
+					ts, gs = ts[:0], gs[:0] // a definition without descriptors
+				}
 				for j := range ts {
 					ts[j] = rnd.Intn(len(gridTemplates))
 					if req == 0 && rnd.Intn(8) != 0 {
